@@ -216,8 +216,8 @@ theorem checkErrFailure_nil (s : Shared) (tid : Nat) (sc : Script) (envs : List 
 def sh0 : Shared := { t := { forceOpen := false, forcedClosed := false, isOpen := false } }
 def flp : Shared → Shared := fun s => { s with t := { s.t with isOpen := !s.t.isOpen } }
 def grab : Shared → Shared := fun s => { s with t := { s.t with holder := some 7 } }
-example : (runK (go_openCircuit () 5) sh0 1 {} [id, id, id, flp, flp]).2.sh.t.log = [true] := by decide
-example : (runK (go_openCircuit () 5) sh0 1 {} [id, id, id, id, flp]).2.sh.t.log = [] := by decide
+example : (runK (go_openCircuit () 5) sh0 1 {} [id, id, flp, flp]).2.sh.t.log = [true] := by decide
+example : (runK (go_openCircuit () 5) sh0 1 {} [id, id, id, flp]).2.sh.t.log = [] := by decide
 example : (runK (go_openCircuit () 5) sh0 1 {} [grab]).1 = .nilCall := by decide
 
 end CM.GoTie.ICall
